@@ -162,6 +162,32 @@ def tlc_simulate(module, cfg, num, depth, seed_, timeout=300, extra_files=None):
         shutil.rmtree(d, ignore_errors=True)
 
 
+def tlc_traps(module, cfg, timeout=120, workers=8, extra_files=None):
+    """Exhaustive search of a generator module with trap printing; returns {trap index: [history,...]}."""
+    d = scratch("tlctrap-")
+    try:
+        files = dict(extra_files or {})
+        files["Trap.cfg"] = cfg
+        _spec_copy(d, files)
+        args = ["-workers", str(workers), "-metadir", os.path.join(d, "md"), "-config", "Trap.cfg", module + ".tla"]
+        rc, out = _java(args, d, timeout, heap="16g")
+        traps = {}
+        for line in out.splitlines():
+            if line.startswith('<<"TRAP", '):
+                m = re.match(r'<<"TRAP", (\d+), (".*")>>\s*$', line)
+                if not m:
+                    continue
+                try:
+                    traps.setdefault(int(m.group(1)), []).append(json.loads(json.loads(m.group(2))))
+                except Exception:
+                    continue
+        ms = re.search(r"(\d+) states generated, (\d+) distinct states found", out)
+        return traps, {"rc": rc, "states": int(ms.group(1)) if ms else 0, "distinct": int(ms.group(2)) if ms else 0,
+                       "tail": out[-1500:]}
+    finally:
+        shutil.rmtree(d, ignore_errors=True)
+
+
 def tlc_validate(module, cfg, trace_path, timeout=600, extra_files=None, dfs=False):
     """Trace validation. The trace module prints <<"TRACE-RESULT", consumed, total, bad>>."""
     d = scratch("tlctr-")
